@@ -122,6 +122,10 @@ def _encode(t, mdk, dk):
         E.prove('encode:bytes_equal_wire_format', M.b_eq_goal(E, out, exp, 'enc'))
         E.prove('encode:length_field', I(E.getattr(fr, 'length')) == lift_bytes(exp).len_term())
         E.prove('encode:is_bytes', isinstance(out, (SBytes, bytes)))
+        # encoding is a function of the frame's fields: encoding the same frame again gives the same bytes (no result or
+        # partial state is carried from one call to the next)
+        out2 = E.call(E.getattr(fr, 'serialize'), [])
+        E.prove('encode:encoding_the_same_frame_again_gives_the_same_bytes', M.b_eq_goal(E, out2, exp, 'enc2'))
     return run
 
 
